@@ -489,6 +489,123 @@ Proof.
     split; [lia|assumption].
 Qed.
 
+(* ---------------------------------------------------------------- walking previous back to the first page *)
+Lemma walk_prev_S : forall f p, walk_prev (S f) ks p =
+  match p_prev p with
+  | None => Some []
+  | Some q => match page ks q with
+              | None => None
+              | Some p' => match walk_prev f ks p' with Some ps => Some (p' :: ps) | None => None end
+              end
+  end.
+Proof. reflexivity. Qed.
+
+Lemma prev_page' : forall pre x post c0 a0, sorted_ks = pre ++ x :: post -> pre = c0 ++ a0 -> length a0 = size ->
+  exists pp, page ks (rq x) = Some pp /\ p_data pp = a0 /\
+             p_prev pp = match c0 with [] => None | _ => Some (rq (hd 0 a0)) end.
+Proof.
+  intros pre x post c0 a0 Hs Hp Hl.
+  destruct c0 as [|c1 c0'].
+  - simpl in Hp. subst pre. eexists. split; [apply (page_rev_short _ _ _ Hs); lia|]. simpl. tauto.
+  - destruct a0 as [|z a]; [simpl in Hl; lia|].
+    eexists. split; [apply (page_rev_long _ _ _ (c1 :: c0') z a Hs Hp Hl); discriminate|]. simpl. tauto.
+Qed.
+
+Lemma concat_full_nil : forall (fulls : list (list Z)), Forall (fun a => length a = size) fulls ->
+  (concat fulls = [] <-> fulls = []).
+Proof.
+  intros fulls H. destruct fulls as [|f1 fs]; [tauto|]. split; [|discriminate].
+  inversion H as [|? ? Hf _]. destruct f1; [simpl in Hf; lia|]. discriminate.
+Qed.
+
+(* fulls = the data of the pages before the page p (each full), p's previous cursor points at x *)
+Lemma walk_back : forall fulls fuel pre x post p,
+  sorted_ks = pre ++ x :: post -> pre = concat fulls -> Forall (fun a => length a = size) fulls ->
+  p_prev p = match fulls with [] => None | _ => Some (rq x) end ->
+  (length fulls < fuel)%nat ->
+  exists back, walk_prev fuel ks p = Some back /\ map p_data back = rev fulls.
+Proof.
+  induction fulls as [|a fulls IH] using rev_ind; intros fuel pre x post p Hs Hp Hf Hprev Hfuel.
+  - destruct fuel as [|f]; [simpl in Hfuel; lia|]. rewrite walk_prev_S, Hprev. exists []. split; reflexivity.
+  - destruct fuel as [|f]; [lia|]. rewrite app_length in Hfuel. simpl in Hfuel.
+    assert (Hprev' : p_prev p = Some (rq x)).
+    { rewrite Hprev. destruct (fulls ++ [a]) eqn:E; [|reflexivity]. exfalso. apply (app_cons_not_nil _ _ _ (eq_sym E)). }
+    rewrite concat_app in Hp. simpl in Hp. rewrite app_nil_r in Hp.
+    apply Forall_app in Hf. destruct Hf as [Hf Ha]. inversion Ha as [|? ? Hla _].
+    destruct (prev_page' _ _ _ _ _ Hs Hp Hla) as (pp & Hpp & Hd & Hpv).
+    rewrite walk_prev_S, Hprev', Hpp.
+    destruct a as [|z a']; [simpl in Hla; lia|].
+    assert (Hs' : sorted_ks = concat fulls ++ z :: (a' ++ x :: post)).
+    { rewrite Hs, Hp. rewrite <- app_assoc. reflexivity. }
+    assert (Hpv' : p_prev pp = match fulls with [] => None | _ => Some (rq z) end).
+    { rewrite Hpv. simpl hd. destruct fulls as [|f1 fs]; [reflexivity|].
+      destruct (concat (f1 :: fs)) eqn:E; [|reflexivity].
+      apply (concat_full_nil _ Hf) in E. discriminate. }
+    destruct (IH f (concat fulls) z (a' ++ x :: post) pp Hs' eq_refl Hf Hpv' ltac:(lia)) as (back & Hb & Hm).
+    rewrite Hb. exists (pp :: back). split; [reflexivity|]. simpl. rewrite Hd, Hm. rewrite rev_app_distr. reflexivity.
+Qed.
+
+Fixpoint back_ok (fulls : list (list Z)) (ps : list cpage) : Prop :=
+  match ps with
+  | [] => True
+  | p :: r => (forall fuel, (length fulls < fuel)%nat ->
+                 exists back, walk_prev fuel ks p = Some back /\ map p_data back = rev fulls) /\
+              back_ok (fulls ++ [p_data p]) r
+  end.
+
+Lemma walk_fwd_back : forall fuel fulls pre x post ps,
+  sorted_ks = pre ++ x :: post -> pre = concat fulls -> Forall (fun a => length a = size) fulls -> fulls <> [] ->
+  walk_next fuel ks (fq x) = Some ps -> back_ok fulls ps.
+Proof.
+  induction fuel as [|f IH]; intros fulls pre x post ps Hs Hp Hf Hne Hw; [discriminate|].
+  assert (Hpne : pre <> []).
+  { intros E. rewrite Hp in E. apply (concat_full_nil _ Hf) in E. contradiction. }
+  rewrite walk_next_S in Hw.
+  destruct (le_lt_dec (length (x :: post)) size) as [Hle|Hgt].
+  - rewrite (page_fwd_short _ _ _ Hs Hpne Hle) in Hw. simpl in Hw. injection Hw as <-. simpl. split; [|exact I].
+    intros fuel Hfuel. apply (walk_back fulls fuel pre x post); try assumption.
+    simpl. destruct fulls; [contradiction|reflexivity].
+  - destruct (split_at (x :: post) size Hgt) as (a & y & c & Ha & Hla).
+    rewrite (page_fwd_long _ _ _ _ _ _ Hs Hpne Ha Hla) in Hw. simpl in Hw.
+    destruct (walk_next f ks (fq y)) as [ps'|] eqn:Hw'; [|discriminate]. injection Hw as <-. simpl. split.
+    + intros fuel Hfuel. apply (walk_back fulls fuel pre x post); try assumption.
+      simpl. destruct fulls; [contradiction|reflexivity].
+    + apply (IH (fulls ++ [a]) (pre ++ a) y c ps').
+      * rewrite Hs, Ha, app_assoc. reflexivity.
+      * rewrite concat_app. simpl. rewrite app_nil_r. rewrite Hp. reflexivity.
+      * apply Forall_app. split; [assumption|]. constructor; [assumption|constructor].
+      * intros E. apply app_eq_nil in E. destruct E; discriminate.
+      * assumption.
+Qed.
+
+Lemma walk_init_back : forall fuel ps, walk_next fuel ks (init_query size asc) = Some ps -> back_ok [] ps.
+Proof.
+  intros fuel ps Hw. destruct fuel as [|f]; [discriminate|]. rewrite walk_next_S in Hw.
+  destruct (le_lt_dec (length sorted_ks) size) as [Hle|Hgt].
+  - rewrite (page_init_short Hle) in Hw. simpl in Hw. injection Hw as <-. simpl. split; [|exact I].
+    intros fuel Hfuel. destruct fuel; [lia|]. rewrite walk_prev_S. simpl. exists []. split; reflexivity.
+  - destruct (split_at sorted_ks size Hgt) as (a & y & c & Ha & Hla).
+    rewrite (page_init_long _ _ _ Ha Hla) in Hw. simpl in Hw.
+    destruct (walk_next f ks (fq y)) as [ps'|] eqn:Hw'; [|discriminate]. injection Hw as <-. simpl. split.
+    + intros fuel Hfuel. destruct fuel; [lia|]. rewrite walk_prev_S. simpl. exists []. split; reflexivity.
+    + apply (walk_fwd_back f [a] a y c ps'); try assumption.
+      * simpl. rewrite app_nil_r. reflexivity.
+      * constructor; [assumption|constructor].
+      * discriminate.
+Qed.
+
+Lemma back_ok_nth : forall ps fulls k pk, back_ok fulls ps -> nth_error ps k = Some pk ->
+  forall fuel, (length fulls + k < fuel)%nat ->
+  exists back, walk_prev fuel ks pk = Some back /\ map p_data back = rev (fulls ++ map p_data (firstn k ps)).
+Proof.
+  induction ps as [|p r IH]; intros fulls k pk Hb Hk fuel Hfuel; [destruct k; discriminate|].
+  destruct Hb as [Hb0 Hb]. destruct k as [|k'].
+  - simpl in Hk. injection Hk as <-. simpl. rewrite app_nil_r. apply Hb0. lia.
+  - simpl in Hk. destruct (IH _ _ _ Hb Hk fuel) as (back & Hw & Hm).
+    + rewrite app_length. simpl. lia.
+    + exists back. split; [assumption|]. rewrite Hm. simpl. rewrite <- app_assoc. reflexivity.
+Qed.
+
 End Column.
 
 (* ================================================================ offset paginator *)
